@@ -1,7 +1,7 @@
 (* C42 — proofs, part 9: the boolean oracles run on the implementation's observables are sound (and, on maps without
    duplicate keys and counts below COUNT_LIMIT, complete) for the Prop-level specification; the model meets them. *)
 From Coq Require Import List NArith Bool Arith Lia Permutation.
-From Verif.C42 Require Import Model Spec Proofs ProofsApply ProofsFinal ProofsIds ProofsSpec ProofsPin ProofsMaglev ProofsSched.
+From Verif.C42 Require Import Model Spec Proofs ProofsApply ProofsFinal ProofsIds ProofsSpec ProofsPin ProofsMaglev ProofsSched ModelMg.
 Import ListNotations.
 Open Scope N_scope.
 
@@ -36,9 +36,7 @@ Proof.
   apply andb_true_iff in H. destruct H as [H1 H2]. constructor; [apply consistentb_sound; auto|auto].
 Qed.
 
-(* all three maps *)
-Fixpoint states3_after (d : dp3) (xs : list xwrite) : list dp3 :=
-  match xs with [] => [] | x :: t => let d' := do_xwrite d x in d' :: states3_after d' t end.
+(* all three maps (states3_after: ModelMg) *)
 
 Lemma replay3_ok_sound : forall mgcheck lut xs d, replay3_ok mgcheck lut d xs = true ->
   Forall (fun s => consistent (fst (fst s)) (snd (fst s))
